@@ -213,6 +213,16 @@ class Prop(PropBase):
         if case["pert"]:
             pieces, effective = self._perturb(case, pieces)
         axis_arg = {"time": "time", "freq": "freq", "other": ax}[case["axis"]]
+        # equivalent spellings of the axis: name, non-negative int, negative int, NumPy integer
+        form = (len(case["cuts"]) + case["L"] + case["n"]) % 4
+        if case["axis"] == "freq" and case["cls"] == "Signal":
+            pass                                    # axis='freq' on a plain Signal must raise TypeError: keep the name
+        elif form == 1:
+            axis_arg = ax
+        elif form == 2:
+            axis_arg = ax - z.ndim
+        elif form == 3:
+            axis_arg = np.int64(ax - z.ndim)
         desc = [self._describe(p, tref) for p in pieces]
         out = {"pieces": desc, "effective": effective}
         try:
